@@ -27,6 +27,7 @@ type c08entry struct {
 	name    string
 	level   byte
 	framing bool // may allocate one maximal frame (or one allocator page) by design
+	frames  int  // framing: how many frame-reading calls one evaluation makes (default 3)
 	run     func(in []byte) string
 }
 
@@ -130,10 +131,47 @@ func c08recv(in []byte, chunk int, alloc *allocator) string {
 	return c08res(err)
 }
 
+// c08fxBufs are the backing slices a caller may hand to the filexfer ReadFrom methods: none, a tiny
+// one, one of exactly the frame limit and a pooled one larger than the limit (allocated once, so the
+// allocation measurement is not disturbed). The framing rules hold whatever the caller passes.
+var c08fxBufs = [][]byte{nil, make([]byte, 0, 4), make([]byte, 0, c08maxFrame), make([]byte, 16, 2*c08maxFrame+64)}
+
 func c08fxRaw(in []byte, chunk int) string {
+	first := ""
+	for i, b := range c08fxBufs {
+		v := c08fxRaw1(in, chunk, b)
+		if len(v) > 4 && v[:4] == "BAD:" {
+			return fmt.Sprintf("%s (caller's buffer: len %d cap %d)", v, len(b), cap(b))
+		}
+		if i == 0 {
+			first = v
+		} else if v != first {
+			return fmt.Sprintf("BAD: outcome depends on the caller's buffer: %s with none, %s with len %d cap %d", first, v, len(b), cap(b))
+		}
+	}
+	return first
+}
+
+func c08fxReq(in []byte, chunk int) string {
+	first := ""
+	for i, b := range c08fxBufs {
+		v := c08fxReq1(in, chunk, b)
+		if len(v) > 4 && v[:4] == "BAD:" {
+			return fmt.Sprintf("%s (caller's buffer: len %d cap %d)", v, len(b), cap(b))
+		}
+		if i == 0 {
+			first = v
+		} else if v != first {
+			return fmt.Sprintf("BAD: outcome depends on the caller's buffer: %s with none, %s with len %d cap %d", first, v, len(b), cap(b))
+		}
+	}
+	return first
+}
+
+func c08fxRaw1(in []byte, chunk int, buf []byte) string {
 	r := c08newReader(in, chunk)
 	var p sshfx.RawPacket
-	err := p.ReadFrom(r, nil, c08maxFrame)
+	err := p.ReadFrom(r, buf, c08maxFrame)
 	if bad := c08frameRules(in, r.off, err == nil); bad != "" {
 		return bad
 	}
@@ -151,10 +189,10 @@ func c08fxRaw(in []byte, chunk int) string {
 	return c08res(err)
 }
 
-func c08fxReq(in []byte, chunk int) string {
+func c08fxReq1(in []byte, chunk int, buf []byte) string {
 	r := c08newReader(in, chunk)
 	var p sshfx.RequestPacket
-	err := p.ReadFrom(r, nil, c08maxFrame)
+	err := p.ReadFrom(r, buf, c08maxFrame)
 	if bad := c08frameRules(in, r.off, err == nil); bad != "" {
 		return bad
 	}
@@ -316,10 +354,10 @@ func c08entries() []c08entry {
 	add("wire.unmarshalStringSafe", 'A', func(in []byte) string { _, _, err := unmarshalStringSafe(in); return c08res(err) })
 
 	// ---------------- filexfer codec ----------------
-	es = append(es, c08entry{name: "fx.RawPacket.ReadFrom", level: 'S', framing: true, run: func(in []byte) string {
+	es = append(es, c08entry{name: "fx.RawPacket.ReadFrom", level: 'S', framing: true, frames: 6, run: func(in []byte) string {
 		return c08twice(func(chunk int) string { return c08fxRaw(in, chunk) })
 	}})
-	es = append(es, c08entry{name: "fx.RequestPacket.ReadFrom", level: 'S', framing: true, run: func(in []byte) string {
+	es = append(es, c08entry{name: "fx.RequestPacket.ReadFrom", level: 'S', framing: true, frames: 6, run: func(in []byte) string {
 		return c08twice(func(chunk int) string { return c08fxReq(in, chunk) })
 	}})
 	add("fx.RawPacket.UnmarshalBinary", 'T', func(in []byte) string { var p sshfx.RawPacket; return c08res(p.UnmarshalBinary(in)) })
